@@ -7,15 +7,11 @@
 #include <string.h>
 #include "vh.h"
 
+#define GF8_STEP r ^= x & (0u - (y & 1u)); y >>= 1; x <<= 1; x ^= 0x11du & (0u - ((x >> 8) & 1u));
 unsigned char gf_mul(unsigned char a, unsigned char b)
 {
     unsigned x = a, y = b, r = 0;
-    for (int i = 0; i < 8; i++) {
-        r ^= x & (0u - (y & 1u));
-        y >>= 1;
-        x <<= 1;
-        x ^= 0x11du & (0u - ((x >> 8) & 1u));
-    }
+    GF8_STEP GF8_STEP GF8_STEP GF8_STEP GF8_STEP GF8_STEP GF8_STEP GF8_STEP
     return (unsigned char)r;
 }
 
